@@ -144,7 +144,7 @@ def run(ctx):
                         "statement": "allPathsClose c = true → ∀ tr s' r, Exec c St.init tr s' (.ret r) → ClosesAll tr"})
     seen = set()
     for op, fn, what, cfg in all_problems:
-        key = "%s:%s" % (fn, op.split()[1] + "/" + "/".join(op.split()[2:]))
+        key = "blobClose:not-overwritten" if op.startswith("wipe") else "%s:%s" % (fn, op.split()[1] + "/" + "/".join(op.split()[2:]))
         if key in seen:
             continue
         seen.add(key)
